@@ -8,7 +8,7 @@ VerifyingKey::verify).  Not decided: that Ed25519/BLAKE3/CBOR reject every tampe
 import re
 
 from mir import (sem_calls, calls_to, branches_on, edge_dominates, reach_from_edge, callers_of,
-                 constructors_of, guarded_by, origins, fname)
+                 constructors_of, guarded_by, origins, fname, exit_kinds)
 from absint import table, Sym, Agg, Const
 from facts import strip_generics
 
@@ -58,13 +58,18 @@ def rule_ingest_order(ctx):
                "store access `%s` must only be reachable through the Ok edge of "
                "validate_operation (validation precedes every store access)" % c.name,
                site=c.loc(), key="C01.1:validated-before:%s" % c.name.split("::")[-1])
+    for kind, bb, rv in exit_kinds(b):
+        if kind == "ok":
+            ctx.ob("C01.1", "accepting exit only after full validation", edge_dominates(b, ok_edge, bb),
+                   "ingest_operation has an Ok exit (inserted or already-exists) that is reachable without a "
+                   "passed validate_operation (header *and* body checks)", site=b.loc(bb),
+                   key="C01.1:ok-exit-validated")
     # rejection leaves the store unchanged: from the Err edge no store call is reachable
     r = reach_from_edge(b, err_edge)
     touched = [c for c in stores if c.bb in r]
     ctx.ob("C01.1", "rejection-touches-no-store", not touched,
            "store calls reachable after validation failed: %s" % touched, site=v.loc())
     # and the failure is propagated: the Err edge reaches an error exit only
-    from mir import exit_kinds
     oks = [bb for k, bb, _ in exit_kinds(b) if k == "ok" and bb in r]
     ctx.ob("C01.1", "rejection-propagates", not oks,
            "an Ok exit is reachable after validate_operation failed (blocks %s)" % oks,
